@@ -232,6 +232,9 @@ def _call_effects(ctx, f, call):
     return out
 
 
+_STOP = ("STOPPING", "STOPPING-E")
+
+
 def engine_typestate(ctx: Ctx, f, rule="R05.4", between_generations: bool = True, exit_dirty: bool = True):
     """CLEAN -EVAL-> DIRTY -GSC false-> CLEAN; DIRTY -EVAL-> X; GSC true -> STOPPING; STOPPING -EVAL-> X;
     STOPPING at exit requires a preceding `_active = False`."""
@@ -279,9 +282,9 @@ def engine_typestate(ctx: Ctx, f, rule="R05.4", between_generations: bool = True
                 return [(gs, deact)]
             if gs == "DIRTY" and between_generations:
                 viol.append((n, s, "two evaluation sites on one path with no GSC consult (outcome false) between them"))
-            elif gs == "STOPPING":
+            elif gs in _STOP:
                 viol.append((n, s, "objective evaluated after the GSC was observed true"))
-            gs = "DIRTY" if gs != "STOPPING" else gs
+            gs = "DIRTY" if gs not in _STOP else "STOPPING-E"
         if n.kind == "stmt":
             v = active_store(n.ast, selfn)
             if v is not None and isinstance(v, ast.Constant) and v.value is False:
@@ -296,9 +299,13 @@ def engine_typestate(ctx: Ctx, f, rule="R05.4", between_generations: bool = True
         if verdict is not None:
             if verdict:
                 return ("STOPPING", s[1])
-            if s[0] == "STOPPING" and n.kind == "cond" and isinstance(n.ast, ast.Name):
+            if s[0] in _STOP and n.kind == "cond" and isinstance(n.ast, ast.Name):
                 return KILL  # the name holds the verdict that was observed true on this path: its false edge is infeasible
-            return ("CLEAN" if s[0] != "STOPPING" else "STOPPING", s[1])
+            if s[0] == "STOPPING":
+                # consulted again with nothing evaluated since it was observed true: the condition is a function of the tree's
+                # state, which this method has not advanced in between, so the answer is the same - the false edge is infeasible
+                return KILL
+            return ("CLEAN" if s[0] not in _STOP else s[0], s[1])
         if s[0] == "FLAGGED" and lab is False and cond_consult(ctx, f, n, "gsc") == 3:
             return ("CLEAN", s[1])  # the flag holding the latest verdict is false
         return s
@@ -347,7 +354,7 @@ def engine_typestate(ctx: Ctx, f, rule="R05.4", between_generations: bool = True
     from .common import opaque_step_helpers
 
     opaque = opaque_step_helpers(ctx, f)
-    if opaque and (viol or any((s_[0] == "STOPPING" and not s_[1]) or (exit_dirty and s_[0] in ("DIRTY", "FLAGGED") and not s_[1]) for s_ in exits)):
+    if opaque and (viol or any((s_[0] in _STOP and not s_[1]) or (exit_dirty and s_[0] in ("DIRTY", "FLAGGED") and not s_[1]) for s_ in exits)):
         return [ctx.ob(rule, f, opaque[0], status=INCONCLUSIVE, detail=f"part of the metaepoch (evaluations, stop-condition consults) runs inside `{norm(opaque[0].func)}`, which this rule does not follow", construct="opaque-helper")], eval_nodes
     for n, s, msg in viol:
         k = (n.id, msg)
@@ -359,7 +366,7 @@ def engine_typestate(ctx: Ctx, f, rule="R05.4", between_generations: bool = True
             status, msg = INCONCLUSIVE, "a GSC consult between two evaluation sites is skipped under a condition the analyser cannot evaluate"
         obs.append(ctx.ob(rule, f, n.stmt, status=status, detail=msg, witness=witness_path(cfg, parent, n.id, s), construct=n.label))
     for s in exits:
-        if s[0] == "STOPPING" and not s[1]:
+        if s[0] in _STOP and not s[1]:
             obs.append(ctx.ob(rule, f, f.node, status=VIOLATION, detail="a path on which the GSC was observed true leaves run_metaepoch without `_active = False`", witness=witness_path(cfg, parent, cfg.exit.id, s), construct="exit-after-gsc-true"))
         if exit_dirty and s[0] in ("DIRTY", "FLAGGED") and not s[1]:
             # one-shot engines deactivate unconditionally; every other engine consults the GSC after its last evaluation
